@@ -46,6 +46,11 @@ CHECKS = {
    "DESIGN.md section 4 / C15",
    "Promptness uses the budget left after the whole call (weakest necessary condition) and only items the hook still lists as unacknowledged; sender clock = simulator clock.",
    "runtime monitoring: trace checker over decoded wire events with a shadow retransmission table"),
+ "C16": ("fault_enumeration",
+   "Enumerated: all 4096 subsets of a 12-element sequence universe (3 numberings) as ack sets through codec and through a live endpoint (emitted Ack == recorded set == fed set), and every netcode packet kind x sequence-length class x payload length through the crate's codec. Sampled: boundary-valued renet packets of every kind, decode->encode->decode on random / mutated byte strings, sparse ack sets up to 90 ranges, connect tokens with 1..32 mixed addresses through write/read and seal/open, mutated token bytes.",
+   "DESIGN.md section 4 / C16",
+   "exhaustive only for the two enumerated sub-spaces; values are generated within the limits the library enforces when sending.",
+   "runtime monitoring: round-trip oracle (value equality) over enumerated and generated values; ack packet vs hook-recorded set"),
 }
 
 NOT_YET = {}
